@@ -289,6 +289,21 @@ impl<'a> Rw<'a> {
                 self.fire("R-ERR.ensure");
                 Some(parse_quote!(if !(#c) { return Err(VErr); }))
             }
+            "early_err" => {
+                // validate.rs: if !errors.is_empty() { errors.push(anyhow!(..)); return Err(errors); }
+                let args = mac.parse_body_with(Punctuated::<Expr, Token![,]>::parse_terminated).ok()?;
+                let mut e = args.first()?.clone();
+                self.visit_expr_mut(&mut e);
+                self.fire("R-MACROFN.early_err");
+                Some(parse_quote!(if !#e.is_empty() { #e.push(VErr); return Err(#e); }))
+            }
+            "early_fake_ok" => {
+                let args = mac.parse_body_with(Punctuated::<Expr, Token![,]>::parse_terminated).ok()?;
+                let mut e = args.first()?.clone();
+                self.visit_expr_mut(&mut e);
+                self.fire("R-MACROFN.early_fake_ok");
+                Some(parse_quote!(if #e.is_fake() { return Ok(()); }))
+            }
             "bail" => {
                 self.fire("R-ERR.bail");
                 Some(parse_quote!(return Err(VErr)))
@@ -386,6 +401,13 @@ impl<'a> Rw<'a> {
     }
 }
 
+fn strip_paren_expr(e: &Expr) -> &Expr {
+    match e {
+        Expr::Paren(p) => strip_paren_expr(&p.expr),
+        _ => e,
+    }
+}
+
 fn is_boolish(e: &Expr) -> bool {
     match e {
         Expr::MethodCall(m) => m.method.to_string().starts_with("is_"),
@@ -434,6 +456,11 @@ impl<'a> VisitMut for Rw<'a> {
                 let last = p.segments.last().unwrap();
                 let lname = last.ident.to_string();
                 if Self::is_si_path(p) && p.segments.len() == 2 {
+                    self.fire("R-TY.si");
+                    *t = parse_quote!(Q);
+                    return;
+                }
+                if lname == "Quantity" {
                     self.fire("R-TY.si");
                     *t = parse_quote!(Q);
                     return;
@@ -546,6 +573,35 @@ impl<'a> VisitMut for Rw<'a> {
                     out.push(s);
                 }
             }
+        }
+        // R-FMT.dead_let: a binding that only fed a removed message macro and is built by an iterator chain
+        if self.opts.extra.contains_key("drop_dead_iter_lets") {
+            let mut keep: Vec<Stmt> = Vec::with_capacity(out.len());
+            let n = out.len();
+            for i in 0..n {
+                let mut dead = false;
+                if let Stmt::Local(l) = &out[i] {
+                    if let (syn::Pat::Type(pt), Some(init)) = (&l.pat, &l.init) {
+                        if let syn::Pat::Ident(pi) = &*pt.pat {
+                            let name = pi.ident.to_string();
+                            let t = ts_str(&init.expr);
+                            if t.contains(".filter(") || t.contains(".collect()") {
+                                let used = out[i + 1..].iter().any(|s2| {
+                                    let txt = s2.to_token_stream().to_string();
+                                    txt.split(|c: char| !(c.is_alphanumeric() || c == '_')).any(|w| w == name)
+                                });
+                                dead = !used;
+                            }
+                        }
+                    }
+                }
+                if dead {
+                    self.fire("R-FMT.dead_let");
+                } else {
+                    keep.push(out[i].clone());
+                }
+            }
+            out = keep;
         }
         b.stmts = out;
     }
@@ -671,6 +727,13 @@ impl<'a> VisitMut for Rw<'a> {
                             }
                         }
                     }
+                } else if segs.len() >= 2 && segs[segs.len() - 1] == "ZERO" && (segs[0] == "uom" || segs[0] == "Q" || self.opts.instantiate.contains_key(&segs[0])) {
+                    self.fire("R-UNIT.zero");
+                    replacement = Some(parse_quote!(Q::zero()));
+                } else if segs.len() == 2 && segs[0] == "ValidationErrors" {
+                    let l = p.path.segments.last().unwrap().clone();
+                    self.fire("R-ERR.valerrors");
+                    replacement = Some(parse_quote!(VErrors::#l));
                 } else if segs.len() == 3 && segs[0] == "si" && segs[2] == "ZERO" {
                     self.fire("R-UNIT.zero");
                     replacement = Some(parse_quote!(Q::zero()));
@@ -727,7 +790,19 @@ impl<'a> VisitMut for Rw<'a> {
                     let l = &b.left;
                     let r = &b.right;
                     self.fire("R-OPASSIGN");
-                    replacement = Some(parse_quote!(#l = #l #op (#r)));
+                    if matches!(op, Add(_)) && self.opts.extra.contains_key("usize_add_diverges") && matches!(strip_paren_expr(r), Expr::Lit(x) if matches!(x.lit, syn::Lit::Int(_))) {
+                        self.fire("R-ADD.diverge");
+                        replacement = Some(parse_quote!(#l = add_or_panic(#l, #r)));
+                    } else {
+                        replacement = Some(parse_quote!(#l = #l #op (#r)));
+                    }
+                } else if matches!(b.op, Add(_)) && self.opts.extra.contains_key("usize_add_diverges") && matches!(strip_paren_expr(&b.right), Expr::Lit(l) if matches!(l.lit, syn::Lit::Int(_))) {
+                    // R-ADD.diverge: `n + k` on usize panics on overflow in a debug build; a 64-bit step counter
+                    // cannot overflow in any run that terminates: modelled as diverging
+                    let l = &b.left;
+                    let r = strip_paren_expr(&b.right);
+                    self.fire("R-ADD.diverge");
+                    replacement = Some(parse_quote!(add_or_panic(#l, #r)));
                 } else if matches!(b.op, Sub(_)) && self.opts.extra.contains_key("usize_sub_diverges") && matches!(&*b.right, Expr::Lit(l) if matches!(l.lit, syn::Lit::Int(_))) {
                     // R-SUB.diverge: `n - k` on usize panics on underflow in a debug build (and the wrapped value is
                     // rejected by the following bounds-checked access in release): modelled as diverging
@@ -1391,6 +1466,9 @@ fn process_fn(req: &ItemReq, opts: &Opts, file: &syn::File, uc: &BTreeMap<String
     }
     if let Some(r) = &opts.rename {
         sig.ident = syn::Ident::new(r, Span::call_site());
+    }
+    if opts.extra.contains_key("drop_generics") {
+        sig.generics = Default::default();
     }
 
     // 3. rewriting
